@@ -731,10 +731,12 @@ pub fn main(args: &[String]) {
             run_vcase(idx, &g)
         }
     });
-    let (prefix, ty, check, per_file) = if is_service { ("svc_cases", "scase", "check_svc", 40) } else { ("vote_cases", "vcase", "check_all", 40) };
+    let (prefix, ty, check, per_file) = if is_service { ("svc_cases", "scase", "check_svc", 50) } else { ("vote_cases", "vcase", "check_all", 50) };
     let mut w = CaseWriter::new(&o.out, prefix, HEADER, ty, check, per_file);
     let mut canon: BTreeSet<u64> = BTreeSet::new();
     let mut seen_sig: BTreeSet<String> = BTreeSet::new();
+    // counters that must be visible even when they are zero
+    sum.hist.addn(if is_service { "service:case_truncated_at_time_ambiguous_step" } else { "ipvote:time_ambiguous_step_skipped" }, 0);
     for (k, r) in results.into_iter().enumerate() {
         let idx = range[k];
         sum.evaluations += 1;
